@@ -3,6 +3,50 @@ import numpy as np
 
 PBCS = [(False, False, False), (True, False, False), (False, True, False), (False, False, True),
         (True, True, False), (True, False, True), (False, True, True), (True, True, True)]
+
+
+def pbc_form(rng, pbc):
+    """The same periodicity flags in one of the forms ASE and MatID accept: bool ndarray, list / tuple of Python
+    bools, integer ndarray / list / tuple (0/1), or a single bool when the three flags agree.  Returns (value, name)."""
+    b = [bool(x) for x in np.asarray(pbc).ravel()]
+    forms = ["ndarray_bool", "ndarray_bool", "list_bool", "tuple_bool", "ndarray_int", "list_int", "tuple_int"]
+    if b[0] == b[1] == b[2]:
+        forms += ["scalar_bool", "scalar_bool"]
+    f = forms[int(rng.integers(len(forms)))]
+    if f == "ndarray_bool":
+        return np.array(b), f
+    if f == "list_bool":
+        return list(b), f
+    if f == "tuple_bool":
+        return tuple(b), f
+    if f == "ndarray_int":
+        return np.array([int(x) for x in b]), f
+    if f == "list_int":
+        return [int(x) for x in b], f
+    if f == "tuple_int":
+        return tuple(int(x) for x in b), f
+    return b[0], f
+
+
+def array_form(rng, a):
+    """The same float array as C-ordered (default), Fortran-ordered, read-only, nested list or a non-contiguous view.
+    Returns (value, name)."""
+    a = np.array(a, float)
+    f = ["c", "c", "fortran", "readonly", "list", "strided"][int(rng.integers(6))]
+    if f == "fortran":
+        return np.asfortranarray(a), f
+    if f == "readonly":
+        b = a.copy(); b.setflags(write=False)
+        return b, f
+    if f == "list":
+        return a.tolist(), f
+    if f == "strided" and a.ndim == 2:
+        big = np.zeros((a.shape[0], a.shape[1] * 2))
+        big[:, ::2] = a
+        return big[:, ::2], f
+    return a, "c"
+
+
 KINDS = ["orthogonal", "triclinic", "sheared", "needle", "plate", "cubic_small"]
 
 
